@@ -102,6 +102,17 @@ def model_units(ctx, cases, outs, f7_fixed):
     return res, ""
 
 
+def benign_diff(kr, o):
+    """Replay reached the same best block and the same main chain; the stores differ only by additional
+    side-branch blocks/receipts/state: a block rejected as a main-chain candidate in the crash-free run (not stored) is
+    stored unvalidated as a side block when it is re-delivered after the tip has moved on."""
+    d = kr.get("diff") or {}
+    ch = d.get("chain") or []
+    stt = d.get("state") or []
+    return (kr.get("replay_best") == o["final"]["best"] and bool(ch or stt)
+            and all(x.startswith(("extra:blk", "extra:rcpt")) for x in ch) and all(x.startswith("extra:") for x in stt))
+
+
 def run(ctx):
     pr = ctx.prove()
     ctx.cov["trusted_base"] = ["Coq 8.16.1 kernel + vm_compute", "Go toolchain + overlay", "journaling KV store + engine (harness/engines/chaindb)",
@@ -117,6 +128,7 @@ def run(ctx):
     outs = cd.run_engine(ctx, eng, cases, "c06")
     fails = []
     npoints = 0
+    nbenign = [0]
     kinds = set()
     for c, o in zip(cases, outs):
         units = o["units"]
@@ -135,6 +147,8 @@ def run(ctx):
                 what = ("C06:marker-left", "reorg marker still present after recovery (crash at unit %d)" % k)
             elif not (kr["legit"] or kr.get("legit_mid")):
                 what = ("C06:best-not-legit", "best block after crash at unit %d + recovery is neither the old nor the new tip" % k)
+            elif not kr["converged"] and benign_diff(kr, o):
+                nbenign[0] += 1
             elif not kr["converged"]:
                 arr = ua[k] if k < len(ua) else None
                 later_marker = arr is not None and any(("marker" in units[j]["classes"]) for j in range(k, len(units)) if ua[j] == arr)
@@ -170,7 +184,8 @@ def run(ctx):
     ctx.cov["distinct_nontrivial"] = len(kinds)
     ctx.cov["rule"] = "crash points = every prefix of the joint journal of every scenario (linear, side, orphan runs, reorganisations of depth 1..4); distinct = distinct (store, kind, key-class set) write-unit shapes cut"
     ctx.cov["input_distribution"] = {"scenarios": len(cases), "corpus": len(corpus), "crash_points": npoints,
-                                     "units": sum(len(o["units"]) for o in outs), "f7_fixed_in_source": f7_fixed}
+                                     "units": sum(len(o["units"]) for o in outs), "f7_fixed_in_source": f7_fixed,
+                                     "converged_modulo_extra_side_blocks": nbenign[0]}
     ctx.cov["exhaustive"] = True   # every journal prefix of the listed scenarios
     ctx.sample({"case": cases[0]["id"], "units": outs[0]["units"][:6]})
     seen = set()
